@@ -26,6 +26,21 @@ type bufOp struct {
 	Class byte // for Kind 'b' (StringBuilder call): 'S' safe, 'U' unsafe, 'R' raw fragment
 }
 
+func tailOf(b []byte, n int) []byte {
+	if len(b) > n {
+		return b[len(b)-n:]
+	}
+	return b
+}
+
+func bitLen(n int) int {
+	k := 0
+	for ; n > 0; n >>= 1 {
+		k++
+	}
+	return k
+}
+
 func bufOps() []bufOp {
 	var ops []bufOp
 	for m, n := range []string{"UnsafeEscaped", "SafeEscaped", "SafeRaw"} {
@@ -132,14 +147,59 @@ type bfsStats struct {
 // bufferBFS explores Buffer states breadth-first from the zero Buffer.
 // onTrans is called for every transition (s is never modified; s2 is the fresh successor).
 func bufferBFS(c *Ctx, name string, maxDepth int, maxStates int, onState func(s *buffer.Buffer, w *Worker), onTrans func(s *buffer.Buffer, op *bufOp, s2 *buffer.Buffer, w *Worker)) bfsStats {
+	return bufferBFSFrom(c, name, []buffer.Buffer{{}}, maxDepth, maxStates, onState, onTrans)
+}
+
+// largeInits returns initial states holding n bytes of safe text for each n in sizes, with 4 bytes of spare
+// capacity (so that the next few writes cross a re-allocation), once already escaped and once still pending.
+// The canonical key does not contain the length; a search started from these states covers code whose behaviour
+// depends on the SIZE of the buffer (thresholds, re-allocation policy).
+func largeInits(sizes []int) []buffer.Buffer {
+	var r []buffer.Buffer
+	for _, n := range sizes {
+		fill := []byte(strings.Repeat("abcdefgh", n/8+1)[:n])
+		r = append(r, buffer.VerifMake(buffer.VState{Buf: fill, ValidUntil: n, Mode: buffer.SafeEscaped, Cap: n + 4}))
+		r = append(r, buffer.VerifMake(buffer.VState{Buf: fill, ValidUntil: 0, Mode: buffer.SafeEscaped, Cap: n + 4}))
+	}
+	return r
+}
+
+func largeSizes(quick bool) []int {
+	if quick {
+		return []int{124, 252, 1020, 4092}
+	}
+	return []int{124, 252, 508, 1020, 4092, 65532}
+}
+
+// bufferBFSFrom is bufferBFS from the given initial states; states reached from different initial states are
+// kept apart (the key is prefixed by the length class of the buffer).
+func bufferBFSFrom(c *Ctx, name string, inits []buffer.Buffer, maxDepth int, maxStates int, onState func(s *buffer.Buffer, w *Worker), onTrans func(s *buffer.Buffer, op *bufOp, s2 *buffer.Buffer, w *Worker)) bfsStats {
 	ops := bufOps()
 	var st bfsStats
 	seen := map[uint64]struct{}{} // 64-bit hashes of the canonical keys (a collision can only lose coverage)
-	var zero buffer.Buffer
-	k0, _ := bufKey(&zero)
-	seen[hashString(k0)] = struct{}{}
-	frontier := []buffer.Buffer{zero}
-	st.States = 1
+	var frontier []buffer.Buffer
+	large := len(inits) > 1
+	bufKey := func(b *buffer.Buffer) (string, int) {
+		k, pl := bufKey(b)
+		if large {
+			// size class: the position of the highest set bit of the length; pending text of the initial filler is not capped
+			n := b.VerifState()
+			k = fmt.Sprintf("%d#%s", bitLen(len(n.Buf)), k)
+			if pl > 100 {
+				k = fmt.Sprintf("%d#pending-large#%d|%v|%x", bitLen(len(n.Buf)), n.Mode, n.MarkerOpen, n.Buf[len(n.Buf)-4:])
+			}
+		}
+		return k, pl
+	}
+	for i := range inits {
+		k0, _ := bufKey(&inits[i])
+		if _, ok := seen[hashString(k0)]; ok {
+			continue
+		}
+		seen[hashString(k0)] = struct{}{}
+		frontier = append(frontier, inits[i])
+		st.States++
+	}
 	for depth := 0; len(frontier) > 0; depth++ {
 		if depth >= maxDepth || int(st.States) >= maxStates || c.TimeUp() {
 			st.Depth = depth
